@@ -27,6 +27,7 @@ struct shim_os_cb {
 	int (*close_cb)(int fd);
 };
 void shim_os_arm(const struct shim_os_cb *cb); /* NULL disarms: everything falls through to the real calls */
+void shim_os_set_fd(int fd); /* descriptor number the scripted open() hands out (default SHIM_FAKE_FD) */
 void shim_app_closes_descriptors(void);
 unsigned long shim_stale_descriptor_reads(void);
 #ifdef __cplusplus
